@@ -11,7 +11,7 @@ from pathlib import Path
 from harness import common
 
 KINDS = ["reading", "writing"]
-FAULTS = ["none", "atBegin", "atUpdate", "atBody", "atFlush", "atEnd"]
+FAULTS = ["none", "atBegin", "atUpdate", "atBody", "atFlush", "atEnd", "atBodyBase"]
 
 
 class Injected(Exception):
@@ -107,12 +107,17 @@ def run_session(col, kind, fault, puts, cut=1, reads=(), in_body=None):
             if in_body is not None:
                 out["in_body"] = in_body()
             if kind == "writing":
+                for k in reads:                       # read-then-write inside one writing session
+                    try:
+                        out["reads"][k] = col[k]
+                    except Exception as e:
+                        out["reads"][k] = e
                 for n, (k, v) in enumerate(puts):
-                    if fault == "atBody" and n == cut:
-                        raise Injected("body")
+                    if fault in ("atBody", "atBodyBase") and n == cut:
+                        raise (Injected("body") if fault == "atBody" else KeyboardInterrupt())
                     col[k] = v
-                if fault == "atBody" and cut >= len(puts):
-                    raise Injected("body")
+                if fault in ("atBody", "atBodyBase") and cut >= len(puts):
+                    raise (Injected("body") if fault == "atBody" else KeyboardInterrupt())
             else:
                 for k in reads:
                     try:
@@ -121,6 +126,10 @@ def run_session(col, kind, fault, puts, cut=1, reads=(), in_body=None):
                         out["reads"][k] = e
                 if fault == "atBody":
                     raise Injected("body")
+                if fault == "atBodyBase":
+                    raise KeyboardInterrupt()
+    except KeyboardInterrupt:
+        out["exc"] = "injected:KeyboardInterrupt"
     except Injected as e:
         out["exc"] = "injected:" + str(e)
     except TimeoutError:
